@@ -10,6 +10,7 @@ mod hist;
 mod c01;
 mod eng;
 mod c15;
+mod c14;
 
 fn main() {
     let args: Vec<String> = std::env::args().collect();
@@ -26,6 +27,7 @@ fn main() {
         "eng" => eng::main(rest),
         "c15" => c15::main15(rest),
         "c16" => c15::main16(rest),
+        "c14" => c14::main(rest),
         other => {
             eprintln!("unknown property {other}");
             std::process::exit(2);
